@@ -55,7 +55,7 @@ def op_strategy():
                   st.sampled_from(HIST_KEYS), st.one_of(st.none(), st.integers(0, 50)), st.booleans()),
         st.builds(lambda k: {"op": "get_last", "key": k}, st.sampled_from(HIST_KEYS)),
         st.just({"op": "results"}), st.just({"op": "results"}),
-        st.builds(lambda b: {"op": "logw", "beta": b}, st.sampled_from([0.0, 0.5, 1.0])),
+        st.builds(lambda b, n: {"op": "logw", "beta": b, "normalize": n}, st.sampled_from([0.0, 0.5, 1.0]), st.booleans()),
         st.just({"op": "to_dict"}), st.just({"op": "to_dict"}),
         st.just({"op": "from_dict"}), st.just({"op": "update_from_dict"}), st.just({"op": "save_load"}),
     )
@@ -266,12 +266,16 @@ def exec_sm(case):
         elif o == "logw":
             if not hist["beta"]:
                 continue
-            a = lib_call(sm.compute_logw_and_logz, op["beta"], what="compute_logw_and_logz")
-            b = lib_call(sm.compute_logw_and_logz, op["beta"], what="compute_logw_and_logz")
+            nz = bool(op.get("normalize", True))
+            a = lib_call(sm.compute_logw_and_logz, op["beta"], normalize=nz, what=f"compute_logw_and_logz(normalize={nz})")
+            b = lib_call(sm.compute_logw_and_logz, op["beta"], normalize=nz, what=f"compute_logw_and_logz(normalize={nz})")
+            b = (np.array(b[0], copy=True), b[1])
             scribble(a[0], scribbles)
-            c = lib_call(sm.compute_logw_and_logz, op["beta"], what="compute_logw_and_logz")
+            c = lib_call(sm.compute_logw_and_logz, op["beta"], normalize=nz, what=f"compute_logw_and_logz(normalize={nz})")
             if not same(b[0], c[0]) or not same(b[1], c[1]):
-                raise Violation(f"{where}: compute_logw_and_logz changed after its result was modified", sig={"kind": "logw-corrupted"})
+                raise Violation(f"{where}: compute_logw_and_logz(normalize={nz}) changed after its result was modified", sig={"kind": "logw-corrupted"})
+            if not nz:
+                c = lib_call(sm.compute_logw_and_logz, op["beta"], what="compute_logw_and_logz")
             from vlib.refs import mis_logw
             rl, rz, M = mis_logw(hist["logl"], hist["beta"], hist["logz"], op["beta"])
             if np.max(np.abs(np.asarray(c[0], dtype=float) - np.asarray(rl, dtype=float))) > 1e-8 * max(1.0, M) or abs(float(c[1]) - float(rz)) > 1e-8 * max(1.0, M):
